@@ -53,6 +53,47 @@ class BuildScenario:
     pass
 
 
+def merge_same_site(events):
+    """The region evaluation duplicates the tail of a loop body when an early `continue` leaves no join point inside the loop (`if a && b {
+    continue }`): the same call site is then evaluated once per way of reaching it.  Evaluations of one call site with identical arguments are
+    one event whose guard is the common prefix of the guards plus the disjunction of the rests."""
+    groups = {}
+    order = []
+    for e in events:
+        try:
+            k = (id(e.term), tuple(I.vkey(a) for a in e.fargs))
+        except TypeError:
+            k = (id(e), )
+        if k not in groups:
+            groups[k] = []
+            order.append(k)
+        groups[k].append(e)
+    out = []
+    for k in order:
+        g = groups[k]
+        if len(g) == 1:
+            out.append(g[0])
+            continue
+        gs = [e.guard for e in g]
+        n = 0
+        while all(len(x) > n for x in gs) and all(x[n].key() == gs[0][n].key() for x in gs):
+            n += 1
+        # common suffix as well (conditions tested after the paths have met again)
+        m = 0
+        while all(len(x) - n > m for x in gs) and all(x[len(x) - 1 - m].key() == gs[0][len(gs[0]) - 1 - m].key() for x in gs):
+            m += 1
+        disj = I.FALSE
+        for x in gs:
+            c = I.TRUE
+            for y in x[n:len(x) - m]:
+                c = I.b_and(c, y)
+            disj = I.b_or(disj, c)
+        e0 = g[0]
+        e0.guard = tuple(gs[0][:n]) + (disj,) + tuple(gs[0][len(gs[0]) - m:] if m else ())
+        out.append(e0)
+    return out
+
+
 def build_scenario(F):
     """Abstractly evaluate the cell builder once: symbolic generator position L, index idx, generator
     slice, neighbour stream and boundary.  The clip routine, the vertex constructor and the radius update
@@ -107,8 +148,8 @@ def build_scenario(F):
     sc.idx = RF.sym('idx')
     sc.generators = args[names['generators'] - 1]
     # events inside the loop, at builder depth
-    sc.hs_events = [e for e in ip.events if e.callee and strip_generics(e.callee).endswith('half_space::HalfSpace::new') and e.body is b]
-    sc.clip_events = [e for e in ip.events if e.callee == clip_path and e.body is b]
+    sc.hs_events = merge_same_site([e for e in ip.events if e.callee and strip_generics(e.callee).endswith('half_space::HalfSpace::new') and e.body is b])
+    sc.clip_events = merge_same_site([e for e in ip.events if e.callee == clip_path and e.body is b])
     _cache[key] = sc
     return sc
 
